@@ -192,7 +192,12 @@ pub fn run(tape: &mut Tape, props: Props, thorough: bool, trace_on: bool) -> Out
     // conservative mirror of the single reassembly slot: busy (possibly) until this instant
     let mut slot_busy_until: i64 = 0;
     let n_dg = tape.range(2, if thorough { 14 } else { 7 });
-    let mut shared_by: Vec<IpAddr> = vec![];
+    // (source, instant of the last fragment sent under the shared identification)
+    let mut shared_by: Vec<(IpAddr, i64)> = vec![];
+    // half of the runs hand the fragments over through Interface::poll (which also does the interface's
+    // housekeeping, in its own order) instead of poll_ingress_single, and then do not always poll during the pauses:
+    // the first poll after a long silence is the one that brings the next fragment
+    let via_poll = tape.draw(2) == 0;
     let mut result: Result<(), Violation> = Ok(());
     'outer: for k in 0..n_dg {
         let src = IpAddr::V4([10, 0, 0, 2 + (tape.draw(2) as u8)]);
@@ -214,9 +219,11 @@ pub fn run(tape: &mut Tape, props: Props, thorough: bool, trace_on: bool) -> Out
         let fsz = 8 * tape.range(1, 1 + (l4.len() as u64 / 16).min(60)) as usize;
         // different senders may use the same identification (the reassembly key includes the source address);
         // one sender does not reuse it within a run
-        let share = tape.draw(3) == 0 && !shared_by.contains(&src);
+        // (a sender comes back to an identification only long after the reassembly timeout of its last use)
+        let share = tape.draw(3) == 0 && !shared_by.iter().any(|(a, t)| *a == src && now - *t < 125_000_000);
         let ident = if share {
-            shared_by.push(src);
+            shared_by.retain(|(a, _)| *a != src);
+            shared_by.push((src, now));
             stats.inc("reasm.identification-shared-between-senders");
             0x4abc
         } else {
@@ -290,7 +297,7 @@ pub fn run(tape: &mut Tape, props: Props, thorough: bool, trace_on: bool) -> Out
             hash.bytes(&frags[i].2);
             node.dev.rx.push_back(frags[i].2.clone());
             stats.inc("frag.rx-fragments");
-            let r = node.poll_ingress_single(now);
+            let r = if via_poll { node.poll(now) } else { node.poll_ingress_single(now) };
             let info = match r {
                 Ok(x) => x,
                 Err(e) => {
@@ -364,6 +371,13 @@ pub fn run(tape: &mut Tape, props: Props, thorough: bool, trace_on: bool) -> Out
             }
         }
         dgs[di].complete_arrivals = completes;
+        if share {
+            for e in shared_by.iter_mut() {
+                if e.0 == src {
+                    e.1 = now;
+                }
+            }
+        }
         // ---- must-deliver claim
         let in_time = complete_at.map(|t| t - first_at < 59_000_000).unwrap_or(false);
         let must = slot_free_at_start && in_time && max_ranges <= 3 && plan.len() <= 16;
@@ -396,6 +410,10 @@ pub fn run(tape: &mut Tape, props: Props, thorough: bool, trace_on: bool) -> Out
             2 => 1_000_000,
             _ => tape.range(1, 200_000) as i64,
         };
+        if via_poll && tape.draw(2) == 0 {
+            stats.inc("reasm.pause-without-poll");
+            continue;
+        }
         if let Err(e) = node.poll(now) {
             result = Err(e);
             break;
